@@ -124,6 +124,9 @@ impl Story {
             return Ok(());
         }
 
+        #[cfg(feature = "verif-hooks")]
+        crate::verif::probe("invisible_default_followed");
+
         let choice = &invisible_choices[0];
 
         // Invisible choice may have been generated on a different thread,
